@@ -84,6 +84,28 @@ theorem getAttr_err {s : St} {now : Nat} {n : Node} {s' : St} {st : Nat} (h : ge
     exact ⟨e, by simpa using he, h.2.symm⟩
   · simp at h
 
+theorem mapErrno_ne_zero (e : Fs.Errno) : mapErrno e ≠ 0 := by cases e <;> simp [mapErrno]
+
+theorem getAttr_err_ne_zero {s : St} {now : Nat} {n : Node} {s' : St} {st : Nat} (h : getAttr s now n = (s', .error st)) :
+    st ≠ 0 := by
+  obtain ⟨e, _, hst⟩ := getAttr_err h
+  rw [hst]; exact mapErrno_ne_zero e
+
+theorem lookupPath_err_ne_zero {s : St} {now : Nat} {p : Bytes} {s' : St} {st : Nat}
+    (h : lookupPath s now p = (s', .error st)) : st ≠ 0 := by
+  unfold lookupPath at h
+  split at h
+  · simp only [Prod.mk.injEq, Except.error.injEq] at h; omega
+  · simp only at h
+    split at h
+    · simp at h
+    · simp only [Prod.mk.injEq, Except.error.injEq] at h; omega
+    · split at h
+      · rename_i e _
+        simp only [Prod.mk.injEq, Except.error.injEq] at h
+        rw [← h.2]; exact mapErrno_ne_zero e
+      · simp at h
+
 theorem lookupEach_fs (s : St) (now : Nat) (dir : Bytes) (names : List Bytes) :
     (lookupEach s now dir names).1.fs = s.fs := by
   induction names generalizing s with
